@@ -99,12 +99,13 @@ Fixpoint spec_get_key (m : kmap) (v : N) : option key :=
   end.
 
 (* what Fst::new must answer for a header-only probe of the given length and version field
-   (C10): 0 = opens, 1 = Version error, 2 = Format error, 3 = Version or Format (the text of the
-   property leaves inputs shorter than 32 bytes with an unsupported version open) *)
+   (C10): 1 = Version error, 2 = Format error, 3 = Version or Format (the text of the property
+   leaves inputs shorter than 32 bytes with an unsupported version open), 4 = long enough for its
+   version: whether it opens depends on the content (well-formed files are the `old` cases) *)
 Definition spec_open_class (length version : N) : N :=
   let bad_version := (version =? 0) || (3 <? version) in
   if length <? 8 then 2
   else if length <? 32 then (if bad_version then 3 else 2)
   else if bad_version then 1
   else if (3 <=? version) && (length <? 36) then 2
-  else 0.
+  else 4.
